@@ -129,6 +129,10 @@ def run(chk: Check, ctx: Any) -> None:
 
     # the fallback text is exactly what the SsbScript decompiler wrote for the prefix it was given (its map counts only that)
     from .c06 import fallback_output_rule
+    chk.rule("C09-R5", "recompilation: the compiler (interpreted on laid-out sample programs incl. message switches, loops, contexts) records every op on the line "
+                       "where its statement, header or case begins, which is the line the decompiler printed it on")
+    from .positions import direct_positions_rule
+    direct_positions_rule(chk, ctx, "C09-R5", line_only=True)
     fallback_output_rule(chk, ctx, "C09-R1")
 
     # source_map_add_opcode itself: line = self._line_number (next line) or current line when flagged
